@@ -38,7 +38,7 @@ func inv_decodeMap() bool {
 	return vs.Forall(0, 256, func(i int) bool { return decodeMap[i] == specB64Inv(byte(i)) })
 }
 
-//@ verify init#1 post=inv_decodeMap props=C20,C12
+//@ verify init#1 post=inv_decodeMap props=C20,C12,C03,C14
 //@ loop init#1 0 unroll 256
 //@ loop init#1 1 unroll 64
 
@@ -61,7 +61,7 @@ func specAllB64(s []byte) bool {
 }
 
 // decodeKey as the ciphers use it: in place (dst and src are the same 32-byte buffer).
-// @ verify decodeKey pre=pre_decodeKey post=post_decodeKey_ok,post_decodeKey_bad props=C20,C09,C12 modular modifies=dst
+// @ verify decodeKey pre=pre_decodeKey post=post_decodeKey_ok,post_decodeKey_bad props=C20,C09,C12,C03 modular modifies=dst
 // @ loop decodeKey 0 unroll 8
 // @ loop decodeKey 1 unroll 4
 func pre_decodeKey(dst, src []byte) bool {
